@@ -70,6 +70,7 @@ func (s *ServerTLS) Start(ctx context.Context) (err error) {
 
 	// Start the TLS server loop
 	if s.tcpListener != nil {
+		s.wg.Add(1)
 		go s.startServeTCP(ctx)
 	}
 
@@ -94,6 +95,7 @@ func (s *ServerTLS) startServeTCP(ctx context.Context) {
 	// We do not recover from panics here since if this go routine panics
 	// the application won't be able to continue listening to DoT
 	defer s.handlePanicAndExit(ctx)
+	defer s.wg.Done()
 
 	log.Info("[%s]: Start listening to tls://%s", s.Name(), s.Addr())
 	err := s.serveTCP(ctx, s.tcpListener)
